@@ -7,13 +7,24 @@ SKEL = {
     'C': {'nodes': {'n1': 'L', 'n2': 'L'}, 'ext': ['n1'], 'nts': {'e1': ['n2'], 'e2': ['n2']}},
     'D': {'nodes': {'n1': 'L', 'n2': 'L'}, 'ext': ['n1'], 'nts': {'e1': ['n1']}},      # same ids as A, different attachment
     'E': {'nodes': {'n1': 'L', 'n3': 'L'}, 'ext': ['n1'], 'nts': {'e1': ['n3']}},      # different node set
+    # nonterminal edges of arity 2 (labels P / Q): same edge id and node set, attachment order swapped between F and G
+    'F': {'nodes': {'n1': 'L', 'n2': 'L'}, 'ext': ['n1'], 'nts': {'e1': ['n1', 'n2']}},
+    'G': {'nodes': {'n1': 'L', 'n2': 'L'}, 'ext': ['n1'], 'nts': {'e1': ['n2', 'n1']}},
+    # rules for the arity-2 nonterminals: same nodes, external nodes listed in either order
+    'H': {'nodes': {'n1': 'L', 'n2': 'L'}, 'ext': ['n1', 'n2'], 'nts': {}},
+    'I': {'nodes': {'n1': 'L', 'n2': 'L'}, 'ext': ['n2', 'n1'], 'nts': {}},
 }
+ARITY2 = {'P', 'Q'}
+
+
+def arity(name):
+    return 2 if name in ARITY2 else 1
 
 
 def build(fggs, gspec, which):
     """gspec: {'start': name, 'rules': [[lhs, skeleton, {edge id: label name}, [terminal names]]], 'terminals': {name: [node labels]}}"""
     def nt(name):
-        return fggs.EdgeLabel(name, [fggs.NodeLabel('L')], is_nonterminal=True)
+        return fggs.EdgeLabel(name, [fggs.NodeLabel('L')] * arity(name), is_nonterminal=True)
     h = fggs.HRG(nt(gspec['start']))
     for k, (lhs, sk, labs, terms) in enumerate(gspec['rules']):
         S = SKEL[sk]
@@ -135,4 +146,71 @@ def check(fggs, g1spec, g2spec):
         p.append('start symbol is not the pair of the start symbols')
     if not h.start.is_nonterminal:
         p.append('start symbol is terminal')
+    if not p:
+        p += check_derivations(h1, h2, h)
     return p
+
+
+# ---------------------------------------------------------------- derivations up to a depth bound
+
+def _nt_edges(r):
+    return sorted((e for e in r.rhs.edges() if e.label.is_nonterminal), key=lambda e: str(e.id))
+
+
+def _decor(r):
+    return (tuple(sorted((str(v.id), v.label.name) for v in r.rhs.nodes())), tuple(str(v.id) for v in r.rhs.ext),
+            tuple(sorted((str(e.id), e.label.name, tuple(str(v.id) for v in e.nodes)) for e in r.rhs.edges() if e.label.is_terminal)))
+
+
+def derivations(h, lab, depth, memo=None):
+    """multiset (as a sorted list) of complete derivation trees of `lab` of depth <= depth; a tree is
+    (decoration of the rule: nodes, externals, terminal edges; ((edge id, attachment), subtree) per nonterminal edge)"""
+    memo = {} if memo is None else memo
+    key = (lab.name, depth)
+    if key in memo:
+        return memo[key]
+    out = []
+    if depth > 0:
+        for r in h.rules(lab):
+            subs = []
+            for e in _nt_edges(r):
+                subs.append([((str(e.id), tuple(str(v.id) for v in e.nodes)), t) for t in derivations(h, e.label, depth - 1, memo)])
+            for combo in itertools.product(*subs):
+                out.append((_decor(r), tuple(combo)))
+    memo[key] = out
+    return out
+
+
+def paired_derivations(h1, h2, l1, l2, depth, memo=None):
+    """the definition: pairs of derivations of the same shape using conjoinable rules at every step, written as the tree the conjunction must generate"""
+    memo = {} if memo is None else memo
+    key = (l1.name, l2.name, depth)
+    if key in memo:
+        return memo[key]
+    out = []
+    if depth > 0:
+        for r1 in h1.rules(l1):
+            for r2 in h2.rules(l2):
+                if not conjoinable(r1, r2):
+                    continue
+                e2 = {str(e.id): e for e in _nt_edges(r2)}
+                subs = []
+                for e in _nt_edges(r1):
+                    subs.append([((str(e.id), tuple(str(v.id) for v in e.nodes)), t)
+                                 for t in paired_derivations(h1, h2, e.label, e2[str(e.id)].label, depth - 1, memo)])
+                d1, d2 = _decor(r1), _decor(r2)
+                dec = (d1[0], d1[1], tuple(sorted(d1[2] + d2[2])))
+                for combo in itertools.product(*subs):
+                    out.append((dec, tuple(combo)))
+    memo[key] = out
+    return out
+
+
+def check_derivations(h1, h2, h, depth=3, cap=4000):
+    want = paired_derivations(h1, h2, h1.start, h2.start, depth)
+    if len(want) > cap:
+        return []
+    got = derivations(h, h.start, depth)
+    if sorted(map(repr, got)) != sorted(map(repr, want)):
+        return [f'derivations of the conjunction up to depth {depth}: {len(got)}, paired derivations of the arguments: {len(want)} (or they differ in shape/decoration)']
+    return []
